@@ -55,7 +55,7 @@ def generate(rng, tier):
     n = dict(quick=500, thorough=30000, search=2500)[tier]
     cases = []
     for i in range(n):
-        backend = 'sqlite' if (i % 15 == 0) else 'mem'      # real SQLite files also in the quick tier (restart = reopen of the file)
+        backend = 'sqlite' if (i % 15 == 0) else 'lmdb' if (i % 15 == 7) else 'mem'      # real SQLite files also in the quick tier (restart = reopen of the file)
         cases.append(gen_case(rng.fork(), i, backend, crash_pos=i, mid=(i % 3 == 0)))
     return cases
 
